@@ -58,7 +58,11 @@ class Rate1Data(BitsInterface):
         crc9: Union[int, bitarray] = 0,
         crc32: Union[int, bytes] = 0,
     ):
-        self.data: bytes = data if isinstance(data, bytes) else bits_to_bytes(data)
+        self.data: bytes = (
+            bytes(data)
+            if isinstance(data, (bytes, bytearray, memoryview))
+            else bits_to_bytes(data)
+        )
         self.validate_packet_type(packet_type=packet_type, data_length=len(self.data))
         self.dbsn: int = dbsn if isinstance(dbsn, int) else ba2int(dbsn)
         self.packet_type: Rate1DataTypes = Rate1DataTypes(len(self.data))
